@@ -89,7 +89,23 @@ def gen_constraint(rng, ctx, name, container, depth):
         for _ in range(nb):
             br.append((gx.gen_ineq(rng, ctx, depth - 2, simple=rng.random() < 0.7), _nonconst(rng, ctx, depth - 1)))
         return Con(name, 'cond', (br, _nonconst(rng, ctx, depth - 1)), container)
+    if rng.random() < 0.12 and ctx.nvars >= 2:
+        return Con(name, 'plain', _constfree(rng, ctx), container)
     return Con(name, 'plain', _nonconst(rng, ctx, depth), container)
+
+
+def _constfree(rng, ctx):
+    """A constraint without any numeric constant, in itself and in its derivatives (products of variables and parameters, possibly
+    under exp / sin / cos): removing it takes no leaf out of the model when its variables are used elsewhere."""
+    idx = rng.sample(range(ctx.nvars), min(ctx.nvars, rng.randint(2, 3)))
+    e = ctx.leaf('var', idx[0])
+    for i in idx[1:]:
+        e = gx.N('mul', e, ctx.leaf('var', i))
+    if ctx.nparams and rng.random() < 0.3:
+        e = gx.N('mul', e, ctx.leaf('param', rng.randrange(ctx.nparams)))
+    if rng.random() < 0.4:
+        e = gx.N('mul', gx.N(rng.choice(['sin', 'cos', 'exp']), ctx.leaf('var', rng.randrange(ctx.nvars))), e)
+    return e
 
 
 def _nonconst(rng, ctx, depth):
